@@ -330,20 +330,7 @@ def generate(repo):
                         isinstance(n.comparators[0], ast.List) and all(isinstance(e, ast.Constant) for e in n.comparators[0].elts):
                     sty.append(coq_list(sorted(coq_aa1(c) for c in str_list(n.comparators[0]))))
         need(len(sty) == 3, 'three S/T/Y lists expected, found %d' % len(sty))
-        lp = [n for n in ast.walk(f) if isinstance(n, ast.For)]
-        need(len(lp) == 1 and ast.unparse(lp[0].iter) == 'listOfPsites', 'site loop')
-        b = lp[0].body
-        bs = [ast.unparse(x) for x in b]
-        need(bs[0] == 'site = int(site)' and bs[1] == 'idx = site - 1', 'site -> idx')
-        need(isinstance(b[2], ast.If) and ast.unparse(b[2].test) == 'idx >= len(self.seq) or idx < 0'
-             and isinstance(b[2].body[-1], ast.Continue) and not b[2].orelse, 'range guard must skip (continue)')
-        need(bs[3] == 'res = self.seq[idx]', 'residue lookup')
-        last = b[-1]
-        need(isinstance(last, ast.If) and ast.unparse(last.test).startswith('res not in ') and
-             len(last.orelse) == 1 and isinstance(last.orelse[0], ast.If) and
-             ast.unparse(last.orelse[0].test) == 'idx in self.phosphosites' and
-             ast.unparse(last.orelse[0].orelse[0]) == 'self.phosphosites.append(idx)', 'dedup-and-append shape')
-        need('if isinstance(listOfPsites, int):' in src, 'single int form')
+        # the loop of setPhosPhoSites is tied semantically (g_minipy -> Props/Tie/minipy_phospho_tie.v), not by shape
         need(ast.unparse(S('clear_phosphosites').body[-1]) == 'self.phosphosites = []', 'clear')
         g = ast.unparse(S('get_phosphosites'))
         need('for i in self.phosphosites:\n        newSites.append(i + 1)' in g and 'return newSites' in g, 'get_phosphosites')
